@@ -18,6 +18,16 @@ import (
 // clauses of the contracts redundant, so that rewriting `for _, x := range xs` into an index
 // loop (or back) does not depend on a clause that names `rangeindex` or `i`.
 func (e *Engine) autoInv(fr *Frame, st *State, b *ssa.BasicBlock, phis []*ssa.Phi, blocks map[int]bool) []*Term {
+	out, _ := e.autoInv2(fr, st, b, phis, blocks)
+	return out
+}
+
+// autoInv2 also reports whether the loop is a counting loop whose bound is not a constant: such a
+// loop cannot be unrolled, so when nobody wrote an invariant for it (typically a helper that a
+// refactoring extracted and that is inlined at its call site) it is cut with the inferred
+// bounds as its only invariant instead of being reported as a tool error.
+func (e *Engine) autoInv2(fr *Frame, st *State, b *ssa.BasicBlock, phis []*ssa.Phi, blocks map[int]bool) ([]*Term, bool) {
+	symbolic := false
 	var out []*Term
 	outside := func(v ssa.Value) bool {
 		switch x := v.(type) {
@@ -32,18 +42,26 @@ func (e *Engine) autoInv(fr *Frame, st *State, b *ssa.BasicBlock, phis []*ssa.Ph
 		return false
 	}
 	for _, p := range phis {
-		if !isInteger(p.Type()) || len(p.Edges) != 2 || len(b.Preds) != 2 {
+		if !isInteger(p.Type()) || len(p.Edges) != len(b.Preds) {
 			continue
 		}
+		// one value from outside the loop, one and the same value on every back edge
 		var initV, back ssa.Value
+		regular := true
 		for k, pred := range b.Preds {
 			if blocks[pred.Index] {
+				if back != nil && back != p.Edges[k] {
+					regular = false
+				}
 				back = p.Edges[k]
 			} else {
+				if initV != nil && initV != p.Edges[k] {
+					regular = false
+				}
 				initV = p.Edges[k]
 			}
 		}
-		if initV == nil || back == nil {
+		if !regular || initV == nil || back == nil {
 			continue
 		}
 		bo, ok := back.(*ssa.BinOp)
@@ -97,9 +115,12 @@ func (e *Engine) autoInv(fr *Frame, st *State, b *ssa.BasicBlock, phis []*ssa.Ph
 		}
 		if bound != nil {
 			out = append(out, Le(xt, bound))
+			if !bound.IsNum() {
+				symbolic = true
+			}
 		}
 	}
-	return out
+	return out, symbolic
 }
 
 func (e *Engine) checkAutoInv(fr *Frame, st *State, ord int, ts []*Term, which string) {
